@@ -2,6 +2,10 @@ package checks
 
 import (
 	"fmt"
+	bcrpb "github.com/google/fhir/go/proto/google/fhir/proto/r4/core/resources/bundle_and_contained_resource_go_proto"
+	parpb "github.com/google/fhir/go/proto/google/fhir/proto/r4/core/resources/parameters_go_proto"
+	ppb "github.com/google/fhir/go/proto/google/fhir/proto/r4/core/resources/patient_go_proto"
+	"google.golang.org/protobuf/types/known/anypb"
 	"sort"
 	"strings"
 
@@ -101,6 +105,57 @@ var c01TemporalForms = []struct{ src, class string }{
 	{"Patient.birthDate", "fhir.date"}, {"@0001-01-01", "date.min"}, {"@9999-12-31T23:59:59.999Z", "dt.max"},
 }
 
+// degenerate but valid inputs: protos that the Go API lets a caller build
+type c01Degen struct {
+	name  string
+	root  string
+	mk    func() fhir.Resource
+	paths []string
+}
+
+func c01Degenerate() []c01Degen {
+	anyOf := func(m proto.Message) *anypb.Any {
+		a, err := anypb.New(m)
+		if err != nil {
+			panic(err)
+		}
+		return a
+	}
+	return []c01Degen{
+		{"Bundle with an entry whose resource wrapper is empty", "Bundle", func() fhir.Resource {
+			return &bcrpb.Bundle{Entry: []*bcrpb.Bundle_Entry{{Resource: &bcrpb.ContainedResource{}}, {}, {FullUrl: fhir.URI("urn:x")}}}
+		}, []string{"Bundle.entry.resource", "Bundle.entry[0].resource", "Bundle.entry[0].resource.id", "Bundle.entry.resource.name", "Bundle.entry[1].resource", "Bundle.entry.resource.where($this is Patient)", "Bundle.entry.resource.descendants()"}},
+		{"Bundle with empty response / request / search", "Bundle", func() fhir.Resource {
+			return &bcrpb.Bundle{Entry: []*bcrpb.Bundle_Entry{{Request: &bcrpb.Bundle_Entry_Request{}, Response: &bcrpb.Bundle_Entry_Response{}, Search: &bcrpb.Bundle_Entry_Search{}}}}
+		}, []string{"Bundle.entry.request.method", "Bundle.entry.response.outcome", "Bundle.entry.response.outcome.id", "Bundle.entry.search.mode"}},
+		{"Patient whose contained Any holds an empty wrapper", "Patient", func() fhir.Resource {
+			p := lib.Patient()
+			p.Contained = []*anypb.Any{anyOf(&bcrpb.ContainedResource{})}
+			return p
+		}, []string{"Patient.contained", "Patient.contained.id", "Patient.contained[0]", "Patient.contained.descendants()", "Patient.contained.where($this is Observation)"}},
+		{"Patient whose contained Any holds a non-resource message", "Patient", func() fhir.Resource {
+			p := lib.Patient()
+			p.Contained = []*anypb.Any{anyOf(fhir.String("not a resource")), {TypeUrl: "type.googleapis.com/no.such.Type", Value: []byte{1, 2, 3}}, {}}
+			return p
+		}, []string{"Patient.contained", "Patient.contained.id", "Patient.contained[1]", "Patient.contained[2].id"}},
+		{"Patient with choice wrappers that have no alternative", "Patient", func() fhir.Resource {
+			p := lib.Patient()
+			p.Deceased = &ppb.Patient_DeceasedX{}
+			p.MultipleBirth = &ppb.Patient_MultipleBirthX{}
+			p.Extension = append(p.Extension, &dtpb.Extension{Url: fhir.URI("http://e"), Value: &dtpb.Extension_ValueX{}})
+			return p
+		}, []string{"Patient.deceased", "Patient.multipleBirth", "Patient.multipleBirth + 1", "Patient.deceased.not()", "Patient.extension.value", "Patient.extension('http://e').value", "Patient.deceased is boolean", "Patient.deceased as boolean"}},
+		{"Patient with empty elements everywhere", "Patient", func() fhir.Resource {
+			return &ppb.Patient{Id: &dtpb.Id{}, Meta: &dtpb.Meta{}, Name: []*dtpb.HumanName{{}, {Given: []*dtpb.String{{}, {}}, Period: &dtpb.Period{Start: &dtpb.DateTime{}}}}, BirthDate: &dtpb.Date{}, Gender: &ppb.Patient_GenderCode{},
+				ManagingOrganization: &dtpb.Reference{}, Link: []*ppb.Patient_Link{{}}, Telecom: []*dtpb.ContactPoint{{Rank: &dtpb.PositiveInt{}}}}
+		}, []string{"Patient.id", "Patient.name.given", "Patient.name.period.start", "Patient.name.period.start < today()", "Patient.birthDate", "Patient.birthDate.value", "Patient.birthDate + 1 day", "Patient.gender", "Patient.gender = 'male'", "Patient.managingOrganization.reference",
+			"Patient.link.other.reference", "Patient.link.type", "Patient.telecom.rank + 1", "Patient.name.given.first() & 'x'", "Patient.name.given.join(',')"}},
+		{"Parameters with an empty resource wrapper", "Parameters", func() fhir.Resource {
+			return &parpb.Parameters{Parameter: []*parpb.Parameters_Parameter{{Name: fhir.String("p"), Resource: anyOf(&bcrpb.ContainedResource{})}, {Value: &parpb.Parameters_Parameter_ValueX{}}, {Part: []*parpb.Parameters_Parameter{{}}}}}
+		}, []string{"Parameters.parameter.resource", "Parameters.parameter.resource.id", "Parameters.parameter.value", "Parameters.parameter.part.value", "Parameters.parameter.part.resource"}},
+	}
+}
+
 var c01BinOps = []string{"+", "-", "*", "/", "div", "mod", "&", "=", "!=", "<", "<=", ">", ">=", "and", "or", "xor", "implies", "|", "in", "contains", "~", "!~"}
 
 // c01Call evaluates f and reports a panic (hangs are caught by the worker watchdog)
@@ -169,8 +224,8 @@ func c01Source(r *core.Rec, clause, class, src string) {
 func init() {
 	pool := c01Pool()
 	core.Register(&core.Check{
-		ID: "C01",
-		Rule: "source strings: all token strings of length <=3 (quick) / <=4 over a reduced alphabet (thorough) over a 58-token alphabet holding one token of every lexer rule and keyword, all byte strings of length <=3 / <=4 over 24 bytes (NUL, 0x80, 0xC3, 0xFF, quotes, backslash, ...), every single edit (delete / insert / replace with an alphabet byte at every position) of 75 seed expressions, each through fhirpath.Compile with {default, Permissive, WithExperimentalFuncs} and patch.Compile, whatever compiles is evaluated on a Patient and on no input through Evaluate and the four EvaluateAs* helpers and the four patch operations; operator trees: every unary/binary operator x every ordered pair of the value pool (System pool, FHIR element pool, {}, multi-item collections, a resource, 11 partially populated FHIR elements); function calls: every (name, arity) of both function tables x every receiver of the pool x argument tuples from a 24-value sub-pool (all tuples for arity <=2 on a receiver sub-pool, each-position sweep above); resources: every name path of the schema-covering resource family x every zero-argument function and the EvaluateAs* helpers; patch: operations x paths x values (right, sibling, wrong, nil) x indexes on hand-sized resources, nil resource; oracle: the call returns (no panic; a case that makes no progress for 45 s is a hang); non-trivial = distinct (entry point, case, outcome)",
+		ID:          "C01",
+		Rule:        "source strings: all token strings of length <=3 (quick) / <=4 over a reduced alphabet (thorough) over a 58-token alphabet holding one token of every lexer rule and keyword, all byte strings of length <=3 / <=4 over 24 bytes (NUL, 0x80, 0xC3, 0xFF, quotes, backslash, ...), every single edit (delete / insert / replace with an alphabet byte at every position) of 75 seed expressions, each through fhirpath.Compile with {default, Permissive, WithExperimentalFuncs} and patch.Compile, whatever compiles is evaluated on a Patient and on no input through Evaluate and the four EvaluateAs* helpers and the four patch operations; operator trees: every unary/binary operator x every ordered pair of the value pool (System pool, FHIR element pool, {}, multi-item collections, a resource, 11 partially populated FHIR elements); function calls: every (name, arity) of both function tables x every receiver of the pool x argument tuples from a 24-value sub-pool (all tuples for arity <=2 on a receiver sub-pool, each-position sweep above); resources: every name path of the schema-covering resource family x every zero-argument function and the EvaluateAs* helpers; patch: operations x paths x values (right, sibling, wrong, nil) x indexes on hand-sized resources, nil resource; oracle: the call returns (no panic; a case that makes no progress for 45 s is a hang); non-trivial = distinct (entry point, case, outcome)",
 		Assumptions: []string{"nil entries inside Evaluate's input slice, nil options and typed-nil elements are caller errors outside the domain (property text)", "a hang is a single call making no progress for 45 s"},
 		Subs: func(tier string) []core.Sub {
 			tokLen, byteLen := 3, 3
@@ -433,6 +488,31 @@ func init() {
 							}
 						}
 						walk(nil, []*c02Node{root})
+					}
+				}},
+				{Name: "degenerate-resources", N: len(c01Degenerate()), Note: "valid protos a caller can build although no FHIR JSON produces them (empty resource wrappers in Bundle entries / Parameters / contained, Any with foreign or garbage payload, choice wrappers without an alternative, nil list entries excluded) x navigation, children/descendants, type tests, every zero-argument function, patch operations", Run: func(i int, r *core.Rec) {
+					d := c01Degenerate()[i]
+					paths := append([]string{d.root, d.root + ".children()", d.root + ".descendants()", d.root + ".descendants().count()", d.root + ".children().children()", "children()", "descendants().where($this is Patient)",
+						d.root + ".descendants().id", d.root + ".descendants().where($this is Element).count()", "%context.descendants().select($this as BackboneElement)"}, d.paths...)
+					for _, p := range paths {
+						c01Source(r, "degenerate", d.name, p)
+						e, err := fhirpath.Compile(p)
+						if err == nil {
+							c01EvalAll(r, "degenerate.Evaluate", d.name, e, []fhir.Resource{d.mk()}, core.W{"src": p, "resource": d.name})
+						}
+						for _, fn := range []string{"exists()", "count()", "first()", "toString()", "children()", "distinct()", "not()", "empty()", "single()", "tail()"} {
+							if e2, err := fhirpath.Compile(p + "." + fn); err == nil {
+								c01Total(r, "degenerate.Evaluate", d.name, core.W{"src": p + "." + fn, "resource": d.name}, func() { e2.Evaluate([]fhir.Resource{d.mk()}) })
+							}
+						}
+						r.State("degenerate|" + d.name)
+					}
+					for _, p := range d.paths {
+						w := core.W{"path": p, "resource": d.name}
+						c01Total(r, "degenerate.patch.Delete", d.name, w, func() { patch.Delete(d.mk(), p) })
+						c01Total(r, "degenerate.patch.Replace", d.name, w, func() { patch.Replace(d.mk(), p, fhir.ID("x")) })
+						c01Total(r, "degenerate.patch.Insert", d.name, w, func() { patch.Insert(d.mk(), p, fhir.ID("x"), 0) })
+						c01Total(r, "degenerate.patch.Add", d.name, w, func() { patch.Add(d.mk(), p, "id", fhir.ID("x"), &patch.Options{}) })
 					}
 				}},
 				{Name: "patch", N: 1, Note: "operations x paths x values (right, sibling, wrong, nil) x indexes in [-1, len+1] on hand-sized resources; nil resource", Run: func(i int, r *core.Rec) {
